@@ -14,7 +14,7 @@ import (
 func init() {
 	register("C11", Meta{
 		Explanation: "Structural necessary conditions of exact amounts: (debit-identity) in the withdrawal message handler the three coin arguments of the pool insert are Amount.SubAmount(c), BridgeFee and NewCoin(denom, c) with one and the same value c, so the burnt total is Amount + BridgeFee; (commission-form) c = TruncateInt(rate(holder) * (Amount + BridgeFee)) with rate taken from the token's configured commission through the holder-discount function; on the TransferToChain path the scheduled amount is converted(Amount) - commission - converted(Fee) with the same commission and fee values that are passed on; (commission-bound) every return of the holder-commission function is the configured commission or commission - commission*k/100 with constant 0 < k < 100, the tier table is tested from the largest threshold down with strictly monotone thresholds and discounts; (convert-truncates) the decimals converter multiplies by 10^to and then divides by 10^from on one big integer (no additions, no rounding) and the two wrappers pass (external, 18) and (18, external) respectively; (credit) the deposit credit derives from the locked Amount only (C01.deposit-amount) in consistent units (UQ engine); (fail-clean) in the pool insert every lookup that can fail precedes the first bank operation and no error exit follows the burn.",
-		NotDecided: []string{"commission arithmetic at the tier boundaries", "bank-module behaviour (insufficient funds)", "that truncation loses less than one unit (follows from the multiply-then-divide shape by arithmetic)"},
+		NotDecided:  []string{"commission arithmetic at the tier boundaries", "bank-module behaviour (insufficient funds)", "that truncation loses less than one unit (follows from the multiply-then-divide shape by arithmetic)"},
 		Assumptions: commonAssumptions,
 	}, checkC11)
 }
